@@ -94,6 +94,7 @@ func TestVerifC02Pinned(t *testing.T) {
 			for target := 0; target < 2; target++ {
 				ec := estCase{Provider: provider, NObjs: 3, Target: target, Foreigner: f, PlainRefs: target == 1, Workers: 2}
 				rows = append(rows, row{fmt.Sprintf("establisher provider=%v foreigner=%s target=%d", provider, f, target), ec.build, 2})
+				rows = append(rows, row{fmt.Sprintf("establisher/release provider=%v foreigner=%s target=%d", provider, f, target), ec.buildRelease, 2})
 			}
 		}
 	}
